@@ -4,5 +4,5 @@ set -eu
 cd "$(dirname "$(readlink -f "$0")")"
 export PATH=/opt/veriftools/go1.26.8/bin:$PATH GOFLAGS=-mod=mod GOPROXY=off GOSUMDB=off GOTOOLCHAIN=local GOWORK=off
 mkdir -p bin evidence
-(cd checker && go build -o ../bin/goccverif .)
+(cd checker && go build -o ../bin/goccverif.new . && mv -f ../bin/goccverif.new ../bin/goccverif)
 echo "built bin/goccverif"
